@@ -120,11 +120,18 @@ func OpenDir(baseDir string) (*Bundle, error) {
 			deprecations = make(map[versions.Version]*RegistryVersionDeprecation)
 			ret.registryPackageVersionDeprecations[pkgAddr] = deprecations
 		}
+		seen := make(map[versions.Version]bool, len(rpm.Versions))
 		for versionStr, mv := range rpm.Versions {
 			version, err := parseVersion(versionStr)
 			if err != nil {
 				return nil, fmt.Errorf("invalid registry package version %q: %w", versionStr, err)
 			}
+			if seen[version] {
+				// Two keys that are spellings of one version ("1.0.0" and
+				// "1.0"): which of them won would depend on map order.
+				return nil, fmt.Errorf("duplicate entry for registry package %s version %s", pkgAddr, version)
+			}
+			seen[version] = true
 			deprecations[version] = mv.Deprecation
 			sourceAddr, err := sourceaddrs.ParseRemoteSource(mv.SourceAddr)
 			if err != nil {
